@@ -14,3 +14,7 @@ claim("C10", "runtime monitoring: complete enumeration of the (year, month, day,
       "Every grid point the property quantifies over (1950..2100 x 12 x {1,15,last} x {0h,12h,23:59:59}, table lookup and overrides k=0..60 in thorough / 6 values in quick) is built with the real constructor with and without utc=True, read back with get_full_date(utc=True), and compared with the IERS insertion list; the leap-second step function and Delta-T band/joints are observed for every month.",
       "trusts the IERS list in vpm/oracles/iers.py and the day counter; offsets compared at 1e-4 s (JDE resolution is 4e-5 s)",
       "DESIGN.md section 3 C10")
+claim("C02", "runtime monitoring: seeded boundary-directed JDE/civil-instant workload with day-counter reference, offline monotonicity checker over the recorded (JDE, fields) log, icontract class invariant on Epoch",
+      "About 2e5 (quick) / 4e6 (thorough) instants concentrated within ulps..seconds of day, month, year boundaries and the 1582 reform go through Epoch(j) -> get_full_date() -> Epoch(fields); field ranges, the day-counter instant of the fields and the round trip are checked per call and the sorted log is checked offline for a never-decreasing date tuple. 25 constructor/set/check_input_date forms of one civil instant are compared, and +, -, +=, -=, reflected add, Epoch-Epoch, six comparisons and hash are checked on generated operands.",
+      "trusts the day counter; Epoch pairs closer than 1e-6 day but unequal are not compared (documented 1e-10 equality tolerance)",
+      "DESIGN.md section 3 C02")
